@@ -343,10 +343,12 @@ def step (st : St) (line : String) : St × String :=
     match parseBoard b, d.toNat?, parseOptMv implMv with
     | some b, some d, some implMv =>
       let G := chessGame st.mg (zkeysOf st.skeys)
-      let m := match findBestMove G 100000 b d .none {} with
-        | (some (score, mv), s) => s!"{scoreClass score} {if mv = implMv then "same-move" else "other-move:" ++ optMvText mv} deeper={s.deeperHits}"
-        | (none, _) => "?"
-      let sp := match Spec.V G 2000 d b with
+      let (m, reused) := match findBestMove G 100000 b d .none {} with
+        | (some (score, mv), s) => (s!"{scoreClass score} {if mv = implMv then "same-move" else "other-move:" ++ optMvText mv} deeper={s.deeperHits}", s.deeperHits)
+        | (none, _) => ("?", 0)
+      -- the property compares with plain minimax only when no record cached by a DEEPER search was reused (from depth 4 on a
+      -- position can be met again closer to the root than where it was first stored); such cases are tied to the model, not judged
+      let sp := if reused > 0 then "?" else match Spec.V G 2000 d b with
         | some v =>
           let attains := match implMv with
             | some mv => (G.moves b).contains mv &&
